@@ -102,6 +102,15 @@ bool ops_bias(Ctx &c, Toks const &t)
     o.clear();
     for (size_t i = 0; i < a->gradients->data.size(); i++) o.push_back(ftok(a->gradients->data[i]));
     c.out("grad", join(o));
+    if (a->local_samples) {
+      // shared ABF: this walker's own contribution
+      o.clear();
+      for (size_t i = 0; i < a->local_samples->data.size(); i++) o.push_back(itok((long long) a->local_samples->data[i]));
+      c.out("lsamples", join(o));
+      o.clear();
+      for (size_t i = 0; i < a->local_gradients->data.size(); i++) o.push_back(ftok(a->local_gradients->data[i]));
+      c.out("lgrad", join(o));
+    }
     if (a->pmf && a->pmf->nd > 1) {
       // on-the-fly integration: the divergence kept up to date sample by sample
       o.clear();
